@@ -217,5 +217,65 @@ MUTANTS: List[Mutant] = [
 ]
 
 
+# ---------------------------------------------------------------------- round-4 rules: breaking and accepted spellings
+MUTANTS += [
+    # F-FWD up_to
+    B("c02-getweights-size-no-upto", "C02", D, "        if size is not None:\n            order = size - 1\n\n        if w is None:\n            w = {\n                edge: self._weights[self._edge_list[edge]]\n                for edge in self.get_edges(order=order, up_to=up_to)\n            }", "        if w is None and size is not None:\n            w = {edge: self._weights[self._edge_list[edge]] for edge in self.get_edges(size=size)}\n\n        if w is None:\n            w = {\n                edge: self._weights[self._edge_list[edge]]\n                for edge in self.get_edges(order=order, up_to=up_to)\n            }", "F-FWD"),
+    OKV("c02-benign-getweights-size-upto", "C02", D, "        if size is not None:\n            order = size - 1\n\n        if w is None:\n            w = {\n                edge: self._weights[self._edge_list[edge]]\n                for edge in self.get_edges(order=order, up_to=up_to)\n            }", "        if w is None and size is not None:\n            w = {edge: self._weights[self._edge_list[edge]] for edge in self.get_edges(size=size, up_to=up_to)}\n\n        if w is None:\n            w = {\n                edge: self._weights[self._edge_list[edge]]\n                for edge in self.get_edges(order=order, up_to=up_to)\n            }"),
+    # Q-ISO
+    B("c03-isolated-by-incidence", "C03", T, "    def isolated_nodes(self, size=None, order=None):\n        from hypergraphx.utils.cc import isolated_nodes\n", "    def isolated_nodes(self, size=None, order=None):\n        if size is None and order is None:\n            return [node for node in self.get_nodes() if not self._adj[node]]\n        from hypergraphx.utils.cc import isolated_nodes\n", "Q-ISO"),
+    OKV("c03-benign-isolated-by-neighbours", "C03", T, "    def isolated_nodes(self, size=None, order=None):\n        from hypergraphx.utils.cc import isolated_nodes\n", "    def isolated_nodes(self, size=None, order=None):\n        if size is None and order is None:\n            return [node for node in self.get_nodes() if len(self.get_neighbors(node)) == 0]\n        from hypergraphx.utils.cc import isolated_nodes\n"),
+    # L-ORDERED
+    B("c10-directed-visited-unordered", "C10", PROJ, "    for edge1 in h.get_edges():\n        for edge2 in h.get_edges():\n            if edge1 != edge2:\n                source = set(edge1[1])", "    seen = set()\n    for edge1 in h.get_edges():\n        for edge2 in h.get_edges():\n            if edge1 != edge2 and frozenset((edge_to_id[edge1], edge_to_id[edge2])) not in seen:\n                seen.add(frozenset((edge_to_id[edge1], edge_to_id[edge2])))\n                source = set(edge1[1])", "L-ORDERED"),
+    OKV("c10-benign-directed-visited-ordered", "C10", PROJ, "    for edge1 in h.get_edges():\n        for edge2 in h.get_edges():\n            if edge1 != edge2:\n                source = set(edge1[1])", "    seen = set()\n    for edge1 in h.get_edges():\n        for edge2 in h.get_edges():\n            if edge1 != edge2 and (edge_to_id[edge1], edge_to_id[edge2]) not in seen:\n                seen.add((edge_to_id[edge1], edge_to_id[edge2]))\n                source = set(edge1[1])"),
+    # B-BOUND exact table
+    B("c12-signature-per-side-bound", "C12", SIG, "    for hyperedge in hypergraph.get_edges(size=max_hyperedge_size, up_to=True):\n        source_size = len(hyperedge[0])\n        target_size = len(hyperedge[1])\n", "    for hyperedge in hypergraph.get_edges():\n        source_size = len(hyperedge[0])\n        target_size = len(hyperedge[1])\n        if source_size >= max_hyperedge_size or target_size >= max_hyperedge_size:\n            continue\n", "B-BOUND"),
+    OKV("c12-benign-signature-total-bound", "C12", SIG, "    for hyperedge in hypergraph.get_edges(size=max_hyperedge_size, up_to=True):\n        source_size = len(hyperedge[0])\n        target_size = len(hyperedge[1])\n", "    for hyperedge in hypergraph.get_edges():\n        source_size = len(hyperedge[0])\n        target_size = len(hyperedge[1])\n        if source_size + target_size > max_hyperedge_size:\n            continue\n"),
+    # D-DISTINCT
+    B("c14-scalefree-dedup-raw", "C14", SF, "            edge = tuple(sorted(edge))\n            edges.add(edge)", "            edges.add(tuple(edge))", "D-DISTINCT"),
+    OKV("c14-benign-scalefree-dedup-inline", "C14", SF, "            edge = tuple(sorted(edge))\n            edges.add(edge)", "            edges.add(tuple(sorted(edge)))"),
+    # D-TRIAD
+    B("c18-triad-pairwise-set", "C18", CONT, "                neighbors = hypergraph.get_neighbors(node, order=1)\n                for neigh in neighbors:\n                    if I_old[neigh] == 1 and np.random.random() < beta:\n                        I_new[node] = 1\n                        break  # if the susceptile node gets infected, we stop iterating over its neighbors\n                if I_new[node] == 1:\n                    continue  # if the susceptile node is already infected, we don't run the three-body processes\n                # we run the three-body infections\n                triplets = hypergraph.get_incident_edges(node, order=2)\n                for triplet in triplets:\n                    neighbors = list(triplet)\n                    neighbors.remove(node)\n                    neigh1, neigh2 = tuple(neighbors)\n                    if (\n                        I_old[neigh1] == 1\n                        and I_old[neigh2] == 1", "                neighbors = hypergraph.get_neighbors(node, order=1)\n                infected = {x for x in neighbors if I_old[x] == 1}\n                for neigh in neighbors:\n                    if I_old[neigh] == 1 and np.random.random() < beta:\n                        I_new[node] = 1\n                        break  # if the susceptile node gets infected, we stop iterating over its neighbors\n                if I_new[node] == 1:\n                    continue  # if the susceptile node is already infected, we don't run the three-body processes\n                # we run the three-body infections\n                triplets = hypergraph.get_incident_edges(node, order=2)\n                for triplet in triplets:\n                    neighbors = list(triplet)\n                    neighbors.remove(node)\n                    neigh1, neigh2 = tuple(neighbors)\n                    if (\n                        neigh1 in infected\n                        and neigh2 in infected", "D-TRIAD"),
+    # K-VID vertex per node
+    OKV("c20-benign-bipartite-nodes-first-comprehension", "C20", PROJ, "    for node in h.get_nodes():\n        id_to_obj[\"N\" + str(idx)] = node\n        obj_to_id[node] = \"N\" + str(idx)\n        idx += 1\n        g.add_node(obj_to_id[node], bipartite=0)", "    for idx, node in enumerate(h.get_nodes()):\n        id_to_obj[\"N\" + str(idx)] = node\n        obj_to_id[node] = \"N\" + str(idx)\n        g.add_node(obj_to_id[node], bipartite=0)"),
+    # I-POP
+    B("c17-psi-count-nonisolates", "C17", MT, "            Nk = np.count_nonzero(u0[:, k])", "            Nk = self.non_isolates.shape[0]", "I-POP"),
+    OKV("c17-benign-psi-count-rows", "C17", MT, "            Nk = np.count_nonzero(u0[:, k])", "            Nk = int(np.count_nonzero(u0[:, k] != 0))"),
+    # B-MAXSIZE
+    B("c16-extra-size-uncapped", "C16", SAMP, "                    hye_size = self._rng.integers(2, self._model.max_hye_size + 1)", "                    hye_size = self._rng.integers(2, available_nodes + 1)", "B-MAXSIZE"),
+    OKV("c16-benign-extra-size-alias", "C16", SAMP, "                    hye_size = self._rng.integers(2, self._model.max_hye_size + 1)", "                    size_cap = self._model.max_hye_size\n                    hye_size = self._rng.integers(2, size_cap + 1)"),
+    # E-FIXED max_hye_size
+    B("c15-maxsize-overwritten", "C15", MMSBM, "        if self.max_hye_size is None:\n            self.max_hye_size = max_hye_size_data\n        else:\n            if self.max_hye_size < max_hye_size_data:", "        self.max_hye_size, supplied = max_hye_size_data, self.max_hye_size\n        if supplied is not None:\n            if supplied < max_hye_size_data:", "E-FIXED"),
+    # S-HIF
+    B("c06-hif-incidence-raw-key", "C06", "hypergraphx/readwrite/hif.py", "        H.set_incidence_metadata(tuple(sorted(tmp_edges[edge])), node, incidence)", "        H.set_incidence_metadata(tuple(tmp_edges[edge]), node, incidence)", "S-HIF"),
+    # E-FRESHCOPY snapshot
+    B("c05-copy-from-snapshot", "C05", H, "        return copy.deepcopy(self)\n\n    def __str__", "        h = Hypergraph(weighted=self._weighted)\n        h.populate_from_dict(copy.deepcopy(self.expose_data_structures()))\n        return h\n\n    def __str__", "E-FRESHCOPY"),
+    # captured references
+    B("c04-aggregate-updates-lent-metadata", "C04", M, "            _edge, layer = edge\n            h.add_edge(", "            _edge, layer = edge\n            if h.check_edge(_edge):\n                h.get_edge_metadata(_edge).update(self.get_edge_metadata(_edge, layer))\n            h.add_edge(", "E-PURE"),
+    OKV("c04-benign-aggregate-updates-own-copy", "C04", M, "            _edge, layer = edge\n            h.add_edge(", "            _edge, layer = edge\n            if h.check_edge(_edge):\n                merged = dict(h.get_edge_metadata(_edge))\n                merged.update(self.get_edge_metadata(_edge, layer))\n            h.add_edge("),
+]
+
+
+# ---------------------------------------------------------------------- round-5 rules: breaking and accepted spellings
+STAT = "hypergraphx/filters/statistical_filters.py"
+MUTANTS += [
+    # B-SCANBREAK
+    B("c03-window-scan-breaks-on-size", "C03", T, "                if time_window[0] <= _t < time_window[1]:\n                    edges.append((_t, _edge))", "                if time_window[0] <= _t < time_window[1] and (size is None or len(_edge) == size):\n                    edges.append((_t, _edge))\n                elif edges:\n                    break", "B-SCANBREAK"),
+    OKV("c03-benign-window-scan-breaks-on-time", "C03", T, "                if time_window[0] <= _t < time_window[1]:\n                    edges.append((_t, _edge))", "                if _t >= time_window[1]:\n                    break\n                if time_window[0] <= _t:\n                    edges.append((_t, _edge))"),
+    # L-PREFILTER
+    B("c20-linegraph-prefilter-strict", "C20", PROJ, "        adj[node] = h.get_incident_edges(node)", "        adj[node] = [e for e in h.get_incident_edges(node) if len(e) > s]", "L-PREFILTER"),
+    OKV("c20-benign-linegraph-prefilter", "C20", PROJ, "        adj[node] = h.get_incident_edges(node)", "        adj[node] = [e for e in h.get_incident_edges(node) if len(e) >= s]"),
+    # V-STEPUP
+    B("c19-stepup-count", "C19", STAT, "            fdr = k[ps < k][-1]", "            fdr = k[np.count_nonzero(ps < k) - 1]", "V-STEPUP", count=2),
+    # N-VECTYPE
+    B("c15-logbinomial-int-shortcut", "C15", MMSBM, "    return np.log(np.arange(n - k + 1, n + 1)).sum() - np.log(np.arange(1, k + 1)).sum()", "    if k == 0:\n        return 0\n    return np.log(np.arange(n - k + 1, n + 1)).sum() - np.log(np.arange(1, k + 1)).sum()", "N-VECTYPE"),
+    OKV("c15-benign-logbinomial-float-shortcut", "C15", MMSBM, "    return np.log(np.arange(n - k + 1, n + 1)).sum() - np.log(np.arange(1, k + 1)).sum()", "    if k == 0:\n        return 0.0\n    return np.log(np.arange(n - k + 1, n + 1)).sum() - np.log(np.arange(1, k + 1)).sum()"),
+    # S-LOADARGS weighted-from-header
+    B("c06-weighted-from-edge-records", "C06", LOAD, "                weighted = hypergraph_metadata.get(\"weighted\", False)\n                if hypergraph_type == \"Hypergraph\":", "                weighted = any(\"weight\" in e[\"metadata\"] for e in edges)\n                if hypergraph_type == \"Hypergraph\":", "S-LOADARGS"),
+    # POS vs EID
+    B("c12-degree-sequence-positions", "C12", "hypergraphx/measures/directed/degree.py", "    return {\n        node: in_degree(hg, node, order=order, size=size) for node in hg.get_nodes()\n    }", "    if size is None:\n        return {node: in_degree(hg, node, order=order, size=size) for node in hg.get_nodes()}\n    wanted = {i for i, s_ in enumerate(hg.get_sizes()) if s_ == size}\n    adj = hg.get_adj_dict(\"source\")\n    return {node: sum(1 for e_id in adj[node] if e_id in wanted) for node in hg.get_nodes()}", "K-MEM"),
+]
+
+
 def for_property(prop: str) -> List[Mutant]:
     return [m for m in MUTANTS if m.prop == prop]
